@@ -71,7 +71,25 @@ def plan(seed, tier="quick", index=0):
     rng = sub_rng(seed, "plan")
     lo, hi = TIERS.get(tier, TIERS["quick"])["ops"]
     nops = rng.randrange(lo, hi + 1)
-    stratum = rng.choice(["boundary", "boundary", "pairs", "random", "mixed"])
+    stratum = rng.choice(["boundary", "boundary", "pairs", "random", "mixed", "concurrent"])
+    if stratum == "concurrent":
+        nthreads = rng.choice([2, 2, 3, 4])
+        threads = [[{"compressed": rng.random() < 0.5, "tape": rng.choice([[], [], ["ONE"], ["BOUND-1"], [{"frac": rng.random()}]])} for _ in range(rng.choice([1, 1, 2]))] for _ in range(nthreads)]
+        horizon = 22000 * sum(len(t) for t in threads)
+        strategy = rng.choice(
+            [
+                ["random", 0.0003, 0.0003],
+                ["random", 0.002, 0.002],
+                ["random", 0.01, 0.01],
+                ["hold", 1, horizon, 60000],
+                ["hold", 2, horizon, 60000],
+                ["hold", 3, horizon, 20000],
+                ["pct", 1, horizon],
+                ["pct", 2, horizon],
+                ["rr", rng.choice([50, 500, 5000])],
+            ]
+        )
+        return {"property": PROPERTY, "seed": seed, "stratum": stratum, "threads": threads, "strategy": strategy, "ops": []}
     ops = []
     while len(ops) < nops:
         kind = stratum if stratum != "mixed" else rng.choice(["boundary", "pairs", "random"])
@@ -93,7 +111,104 @@ def plan(seed, tier="quick", index=0):
     return {"property": PROPERTY, "seed": seed, "stratum": stratum, "ops": ops}
 
 
+def _execute_concurrent(sc, tape, keep_events):
+    """2-4 caller threads generating keys and deriving public keys at the same time,
+    each run starting from a freshly imported package (shared module state is the target)."""
+    from sim import callersim
+    from sim import sched as S
+
+    res = RunResult()
+    res.stratum = "concurrent"
+    log = EventLog(keep=keep_events)
+    faults, probes = res.faults, res.probes
+    bits, (ecmath, keys, utils) = callersim.fresh_bits()
+    global _mods
+    _mods = None
+    ent = SimEntropy(log, sub_rng(sc["seed"], "entropy"), max_draws_per_op=10**9)
+    holder = {}
+    results = {}
+    per_thread = {}
+    orig_randbelow = ent.randbelow
+
+    def randbelow(bound):
+        tid = holder["sched"].me()
+        tp = per_thread.get(tid)
+        if tp:
+            ent.tape, ent.pos = [tp.pop(0)], 0
+        return orig_randbelow(bound)
+
+    ent.randbelow = randbelow
+
+    def make(ti, ops):
+        def body():
+            for oi, op in enumerate(ops):
+                per_thread[holder["sched"].me()] = list(op["tape"])
+                try:
+                    key = keys.key()
+                    pub = keys.pub(bytes(key), compressed=op["compressed"])
+                    results[(ti, oi)] = ("ok", bytes(key), bytes(pub))
+                except Exception as e:  # noqa
+                    results[(ti, oi)] = ("raised", f"{type(e).__name__}: {e}"[:200], b"")
+
+        return body
+
+    fns = [make(ti, ops) for ti, ops in enumerate(sc["threads"])]
+    with EntropySeam(ent, [ecmath, keys, utils]):
+        orig_init = S.Sched.__init__
+
+        def init(self, *a, **k):
+            orig_init(self, *a, **k)
+            holder["sched"] = self
+
+        S.Sched.__init__ = init
+        try:
+            sched, died = callersim.run_callers(sub_rng(sc["seed"], "sched"), log, fns, sc["strategy"], [ecmath.__file__, utils.__file__, keys.__file__], tape=tape)
+        finally:
+            S.Sched.__init__ = orig_init
+    viols = []
+    for ti, exc in enumerate(died):
+        if exc is not None:
+            viols.append(Violation("keygen-raised", f"thread={ti}", f"caller thread died: {exc!r}", {"via": "concurrent"}))
+    n_ok = 0
+    for (ti, oi) in sorted(results):
+        st, key, pub = results[(ti, oi)]
+        op = sc["threads"][ti][oi]
+        where = f"thread={ti} op={oi}"
+        feats = {"via": "concurrent", "last": ""}
+        if st == "raised":
+            viols.append(Violation("keygen-raised", where, key, feats))
+            continue
+        k = int.from_bytes(key, "big")
+        log.add(ti, "op", "key", (oi, key.hex()[:16], pub.hex()[:16]))
+        if len(key) != 32 or not (1 <= k <= N - 1):
+            viols.append(Violation("key-out-of-range", where, f"key={k:#x}", feats))
+            continue
+        want = EC.pub_bytes(k, op["compressed"])
+        if pub != want:
+            viols.append(Violation("pubkey-mismatch", where + f" compressed={op['compressed']}", f"k={k:#x} got {pub.hex()} want {want.hex()} (concurrent callers)", feats))
+        else:
+            n_ok += 1
+            probes.hit("concurrent-pubkey-correct")
+    seen = set()
+    for v in viols:
+        kk = (v.clause, v.key)
+        if kk not in seen:
+            seen.add(kk)
+            res.violations.append(v.to_json())
+    faults.hit("preemptive-switch", sched.switches)
+    res.nontrivial = sched.switches >= 2
+    res.digest = log.digest()
+    res.tape = sched.tape_out
+    res.steps = sched.steps
+    res.stats["keys"] = n_ok
+    res.stats["events"] = log.events if keep_events else None
+    res.features = {"stratum": "concurrent"}
+    return res
+
+
 def execute(scenario, tape=None, keep_events=False):
+    if scenario["stratum"] == "concurrent":
+        return _execute_concurrent(scenario, tape, keep_events)
     bits, ecmath, keys, utils, bmain = mods()
     sc = scenario
     res = RunResult()
